@@ -126,6 +126,22 @@ def _build_meta(d: Defn):
             _w.simplefilter("ignore")
             base = StateMachineMetaclass("LenientBase", (StateMachine,), ns)
         return StateMachineMetaclass("M", (base,), {}, strict_states=True)
+    hs = zlib.crc32(repr((d.states, d.events, d.loose, "split")).encode())
+    items = list(ns.items())
+    if hs % 4 == 3 and len(items) >= 2:
+        # the same class body split between a concrete base class and a subclass (the rest of the attributes, in the
+        # same order): the subclass is the machine under test. Used only when the first part is a machine of its own.
+        cut = 1 + (hs >> 4) % (len(items) - 1)
+        import warnings as _w
+        from statemachine.exceptions import InvalidDefinition
+        try:
+            with _w.catch_warnings():
+                _w.simplefilter("ignore")
+                base = StateMachineMetaclass("SplitBase", (StateMachine,), dict(items[:cut]))
+        except InvalidDefinition:
+            base = None
+        if base is not None and not getattr(base, "_abstract", False):
+            return StateMachineMetaclass("M", (base,), dict(items[cut:]), strict_states=d.strict)
     return StateMachineMetaclass("M", (StateMachine,), ns, strict_states=d.strict)
 
 
